@@ -7,8 +7,18 @@
   The model (Cbfs/Model.lean) is the code as repaired by fixes/C19-*.diff and
   fixes/C20-cbfs-bounds.diff; on the unrepaired code `c19_list_exact` and `c19_files_exact` are
   false (§8 rows 15, 16 and the new rows of reports/C19.md; inputs in corpus/C19).
+
+  Follow-up wp-c19b: the re-serialising write-back `Image.Update` with the `Write` methods
+  (Cbfs/Write.lean; C19.5b), the text / JSON presentation (Cbfs/Present.lean; C19.1b) and the attribute
+  walk as a function of the attribute list (C19.1c); code as repaired by fixes/C19-update-in-place.diff
+  and fixes/C19-list-compression-const.diff.
 -/
 import FianoModel.Cbfs.ImageLemmas
+import FianoModel.Cbfs.UpdateLemmas
+import FianoModel.Cbfs.PresentLemmas
+import FianoModel.Cbfs.PresentInj
+import FianoModel.Cbfs.AttrLemmas
+import FianoModel.Cbfs.UpdateHead
 import FianoModel.Cbfs.Tie
 import FianoModel.Cbfs.CodeTie   -- T1 code-as-code tie (wp-t1x): audited as a tie module of this check
 
@@ -142,10 +152,104 @@ theorem c19_decompress_original (lzma lz4 : Codec) (a : Archive) (w : a.WF) (i :
 
 /-- **write_back_id.** `WriteFile` after `NewImage` writes exactly the bytes that were read
     (for every accepted image). The write-back path that re-serializes the records
-    (`Image.Update`) is NOT covered: on the real code it is not an identity on an unmodified
-    archive (known finding C19-update-not-identity). -/
+    (`Image.Update`) is the subject of C19.5b below. -/
 theorem c19_write_back_id (img : Bytes) (i : Image) (h : newImage img = .ok i) : writeFile i = img :=
   (newImage_inv img i h).1
+
+/-! ## C19.5b the re-serialising write-back `Image.Update` (follow-up wp-c19b)
+
+  `update` is the code as repaired by fixes/C19-update-in-place.diff. On the code before the repair
+  (`updateHead`) none of the identity statements holds; Cbfs/UpdateHead.lean proves what does hold there
+  and gives a `decide`d witness for each way it changes an unmodified archive. -/
+
+/-- **update_unmodified_id, on images with clean empty space.** The full statement — `Update` on any
+    image as read leaves it byte-identical — is FALSE for the code even as repaired
+    (`update_stale_empty_witness`); what is proved is the fragment `EmptyClean`. For EVERY image the reader accepts (well formed or not): `Update` on the
+    image as read returns no error and leaves `Image.Data` byte-identical — provided the empty-space
+    records are clean (`EmptyClean`: no attribute block, stored content all 0xFF). The reader does not keep
+    the bytes of an empty-space record (it represents them by 0xFF / 16 zero bytes), so this hypothesis
+    cannot be dropped (`update_stale_empty_witness` below); that residue stays in the known finding. -/
+theorem c19_update_unmodified_id_clean (img : Bytes) (i : Image) (h : newImage img = .ok i) (hc : EmptyClean img i) :
+    update i = (img, none) :=
+  update_id_of_clean img i h hc
+
+/-- **update_wf_id.** For a well-formed archive whose empty-space records hold only 0xFF (what cbfstool
+    writes): read, `Update`, and the image is byte-identical — records of every type (raw and the other
+    plain types, unregistered types, bootblock, master header, legacy stage, type-0x11 stage, SELF payload,
+    empty space), any name / padding / attribute block / alignment gap. -/
+theorem c19_update_wf_id_clean (a : Archive) (w : a.WF)
+    (hff : ∀ r ∈ a.recs, isEmptyType r.type = true → r.data = List.replicate r.data.length 0xFF)
+    (i : Image) (hi : newImage (ser a) = .ok i) : update i = (ser a, none) :=
+  update_id_of_clean (ser a) i hi (emptyClean_ser a w hff i hi)
+
+/-- **update_never_fails.** `Update` on an image that was just read never returns its
+    `region … outside of CBFS` error (and has no slice expression that can fault) — every accepted image. -/
+theorem c19_update_never_fails (img : Bytes) (i : Image) (h : newImage img = .ok i) : (update i).2 = none :=
+  update_ok img i h
+
+/-- `Update` never changes the length of `Image.Data` (any image value, any outcome). -/
+theorem c19_update_length (i : Image) : (update i).1.length = i.data.length := update_length i
+
+/-- what a record's `Write` emits is a prefix of the data the record holds — for every listed record of
+    every accepted image (so a partial `Write`, like the type-0x11 stage's, leaves the rest in place). -/
+theorem c19_write_prefix (img : Bytes) (i : Image) (h : newImage img = .ok i) :
+    ∀ s ∈ i.segs, writeSeg s = s.file.fdata.take (writeSeg s).length := by
+  obtain ⟨_, fm, st, ar, _, _, _, _, hch⟩ := newImage_inv img i h
+  intro s hs
+  exact writeSeg_prefix s (chain_lo _ _ _ hch s hs).2.legacy
+
+/-! ## C19.1b the text and the JSON listing (follow-up wp-c19b) -/
+
+/-- **text_exact.** `Image.String()` of a well-formed archive is the two header lines followed by
+    `Spec.text`: for every record in archive order exactly one line `recString(name, offset, type name,
+    size, compression name)` with the values as stored (empty space shows the name `(empty)`), a SELF
+    payload followed by one line per segment header. Byte for byte, column padding included. -/
+theorem c19_text_exact (a : Archive) (w : a.WF) :
+    (newImage (ser a)).map textListing = .ok (textHeader ++ Spec.text 0 a.recs) := by
+  obtain ⟨i, hi, hfiles, _⟩ := newImage_ser a w
+  rw [hi]
+  simp only [Except.map, textListing]
+  rw [hfiles, textLines_files a.recs 0 w.recs]
+
+/-- **json_exact.** The structure `Image.MarshalJSON` hands to encoding/json for a well-formed archive:
+    the area offset and, for every record in archive order, name / start / size / type name /
+    (segment table) / compression name as stored. -/
+theorem c19_json_exact (a : Archive) (w : a.WF) :
+    (newImage (ser a)).map jsonListing = .ok { offset := a.pre.length, segments := Spec.json 0 a.recs } := by
+  obtain ⟨i, hi, hfiles, hao, _⟩ := newImage_ser a w
+  rw [hi]
+  simp only [Except.map, jsonListing, hao]
+  have : i.segs.map (fun s => jrecOf s.file) = (i.segs.map (·.file)).map jrecOf := by
+    rw [List.map_map]; rfl
+  rw [this, hfiles, json_files a.recs 0 w.recs]
+
+/-- **text_columns_identify.** The columns of a listing line determine the stored values: `%x` (offset
+    and size columns) is injective on all naturals, the type column (`FileType.String`: one of 23 names, or
+    `0x…` for any other value) identifies the stored type, and the compression column identifies the stored
+    algorithm up to "anything that is not none / lzma / lz4" (all of which print as `unknown`). -/
+theorem c19_text_columns_identify :
+    (∀ a b, hex a = hex b → a = b) ∧ (∀ a b, typeName a = typeName b → a = b) ∧
+    (∀ a b, compName a = compName b → a = b ∨ (2 < a ∧ 2 < b)) :=
+  ⟨hex_inj, typeName_inj, compName_inj⟩
+
+/-! ## C19.1c the attribute walk (follow-up wp-c19b) -/
+
+/-- **compression_anywhere.** The compression a file is listed with is the `compression` field of its
+    first `Compressed` attribute wherever that attribute stands: behind any number of attributes with
+    other tags (known or unknown — they are skipped by their size field), in front of anything, and
+    whatever bytes follow the attribute list inside the attribute block. -/
+theorem c19_compression_anywhere (f : File) (pre post : List Attr) (c : Attr) (tail : Bytes)
+    (hw : ∀ a ∈ pre ++ c :: post, a.WF) (hc : c.tag = tagCompressed)
+    (hpre : ∀ a ∈ pre, a.tag ≠ tagCompressed) (h : f.attr = serAttrs (pre ++ c :: post) ++ tail) :
+    compression f = if c.body.length < 8 then compNone else fromBE (c.body.take 4) := by
+  rw [compression_attrs_tail f _ tail hw h ⟨c, by simp, hc⟩, compOf_anywhere pre post c hc hpre]
+
+/-- **compression_absent.** Without a `Compressed` attribute — the attribute list followed by the end
+    of the block, an end tag or unused 0xFF space — the file is listed as not compressed. -/
+theorem c19_compression_absent (f : File) (as : List Attr) (tail : Bytes) (hw : ∀ a ∈ as, a.WF)
+    (hc : ∀ a ∈ as, a.tag ≠ tagCompressed) (ht : AttrEnd tail) (h : f.attr = serAttrs as ++ tail) :
+    compression f = compNone :=
+  compression_attrs_none f as tail hw h hc ht
 
 /-! ## C19.6 the reader terminates on every input -/
 
@@ -236,5 +340,33 @@ example : payloadWF (beN 4 0x434F4445 ++ List.replicate 24 0 ++ (beN 4 segEntry 
 
 example : stageWF (List.replicate 20 0 ++ leN 4 2 ++ List.replicate 4 0 ++ [7, 8, 9]) :=
   ⟨by decide, by decide⟩
+
+/-- `c19_update_wf_id_clean` applies to the sample archive (its empty-space record holds 8 × 0xFF) -/
+example (i : Image) (hi : newImage (ser sampleArchive) = .ok i) : update i = (ser sampleArchive, none) :=
+  c19_update_wf_id_clean sampleArchive sample_wf (by decide) i hi
+
+/-- … and so does `c19_update_unmodified_id_clean`: `EmptyClean` is met -/
+example (i : Image) (hi : newImage (ser sampleArchive) = .ok i) : EmptyClean (ser sampleArchive) i :=
+  emptyClean_ser sampleArchive sample_wf (by decide) i hi
+
+/-- the hypotheses of `c19_compression_anywhere` are met by a block of three attributes (a hash
+    attribute, an LZ4 compression attribute, an unknown tag) followed by unused 0xFF space -/
+def sampleAttrFile : File :=
+  { size := 0, type := 0x50, attrOff := 40, subOff := 96, recordStart := 0, name := [0x61],
+    attr := serAttrs ([{ tag := 0x68736148, body := [0, 0, 0, 1, 0xAA, 0xBB] }] ++
+              { tag := tagCompressed, body := beN 4 compLZ4 ++ beN 4 100 } ::
+              [{ tag := 0x12345678, body := [] }]) ++ List.replicate 10 0xFF,
+    fdata := [] }
+
+example : compression sampleAttrFile = compLZ4 := by
+  rw [c19_compression_anywhere sampleAttrFile [{ tag := 0x68736148, body := [0, 0, 0, 1, 0xAA, 0xBB] }]
+    [{ tag := 0x12345678, body := [] }] { tag := tagCompressed, body := beN 4 compLZ4 ++ beN 4 100 }
+    (List.replicate 10 0xFF) (by
+      intro a ha
+      simp only [List.cons_append, List.nil_append, List.mem_cons, List.not_mem_nil, or_false] at ha
+      rcases ha with rfl | rfl | rfl <;> exact ⟨by decide, by decide, by decide⟩) rfl (by decide) rfl]
+  decide
+
+example : AttrEnd (List.replicate 10 0xFF) := Or.inr (Or.inr (by decide))
 
 end Fiano.Cbfs
